@@ -195,23 +195,43 @@ def r2(p, rep):
 
 
 def r3(p, rep):
-    rep.rule("C04.R3", "embedded constants are announced in header comments under the same name", "T-DOM (same block)", floor=1)
-    f = p.func("compile._eval_app", "tracer.compiler.python")
-    writes = [n for n in walk_no_nested(f.node) if isinstance(n, ast.Assign) and any(isinstance(t, ast.Subscript) and norm(t.value) == "variableid_to_constant" for t in n.targets)]
+    rep.rule("C04.R3", "embedded constants are announced in header comments under the same name", "T-DOM (same block) + data dependence of the name hint and the comment on one counter", floor=1)
+    comp = compile_func(p)
+    inner = [g for g in p.funcs.values() if g is comp or any(a is comp for a in _ancestors(g))]
+    # the store of a constant: `<table>[id(<variable>)] = <node>.value`
+    writes = [(g, n) for g in inner for n in walk_no_nested(g.node) if isinstance(n, ast.Assign) and any(isinstance(t, ast.Subscript) and isinstance(t.value, ast.Name) and norm(t.slice).startswith("id(") for t in n.targets) and isinstance(n.value, ast.Attribute) and n.value.attr == "value"]
     if not writes:
-        raise AnalysisError("unrecognised idiom: no write to variableid_to_constant in _eval_app")
-    for w in writes:
+        raise AnalysisError("unrecognised idiom: no `<table>[id(variable)] = origin.value` store of an embedded constant inside compile()")
+    for g, w in writes:
+        table = next(t.value.id for t in w.targets if isinstance(t, ast.Subscript) and isinstance(t.value, ast.Name))
         par = getattr(w, "_parent", None)
         blk = None
         for fld in ("body", "orelse"):
             b = getattr(par, fld, None)
             if isinstance(b, list) and w in b:
                 blk = b
-        text = " ".join(norm(s) for s in blk) if blk else ""
-        hint = "const{len(variableid_to_constant)}"
-        ok_comment = "comment_statement(" in text and ".prepend(" in text and text.count(hint) >= 2
-        ok_hint = "name_hints[" in text and hint in text
-        rep.add("C04.R3", f"{f.qualname}:constant-announced", f"{f.module.rel}:{w.lineno}", ok_comment and ok_hint, "the constant's name hint and its `# Constant constN: ...` header comment use the same counter in the same block" if ok_comment and ok_hint else "a constant is stored without a matching header comment / name hint: the returned text cannot be re-executed from its header")
+        after = blk[blk.index(w) + 1 :] if blk else []
+
+        def counter_based(e):
+            """is e computed from len(<table>) evaluated after the store (so the new constant is constN, N = its rank)?"""
+            names, _ = ir.derive(g.node, e)
+            lens = [c for st in after for c in ast.walk(st) if isinstance(c, ast.Call) and norm(c.func) == "len" and c.args and norm(c.args[0]) == table]
+            direct = any(isinstance(c, ast.Call) and norm(c.func) == "len" and c.args and norm(c.args[0]) == table for c in ast.walk(e))
+            return bool(lens) and (direct or (table in names and "len" in names))
+
+        hints = [c for st in after for c in ast.walk(st) if isinstance(c, ast.Call) and isinstance(c.func, ast.Attribute) and c.func.attr == "append" and isinstance(c.func.value, ast.Subscript) and c.args]
+        comments = [c for st in after for c in ast.walk(st) if isinstance(c, ast.Call) and norm(c.func).endswith("comment_statement") and c.args]
+        prepended = any(isinstance(c, ast.Call) and isinstance(c.func, ast.Attribute) and c.func.attr.startswith("prepend") for st in after for c in ast.walk(st))
+        ok_hint = any(counter_based(c.args[0]) for c in hints)
+        ok_comment = prepended and any(counter_based(c.args[0]) for c in comments)
+        rep.add("C04.R3", f"{comp.qualname}:constant-announced", f"{g.module.rel}:{w.lineno}", ok_comment and ok_hint, "the constant's name hint and its `# Constant constN: ...` header comment are computed from the same counter in the same block" if ok_comment and ok_hint else "a constant is stored without a matching header comment / name hint: the returned text cannot be re-executed from its header")
+
+
+def _ancestors(g):
+    g = g.parent
+    while g is not None:
+        yield g
+        g = g.parent
 
 
 def eval_app_branches(p):
@@ -221,15 +241,10 @@ def eval_app_branches(p):
         raise AnalysisError("unrecognised idiom: _eval_app has no isinstance dispatch chain")
     ch = max(chains, key=lambda c: len(c.arms))
     out = {}
-    cur = ch.head
-    while True:
-        arm = [a for a in ch.arms if a.test is cur.test][0]
-        for c in arm.classes:
-            out[c.qualname] = cur
-        if len(cur.orelse) == 1 and isinstance(cur.orelse[0], ast.If):
-            cur = cur.orelse[0]
-        else:
-            break
+    for arm in ch.arms:  # arm.body / arm.subject_name / arm.lineno: the `if` body, or the handler of a dispatch table row
+        if arm.body:
+            for c in arm.classes:
+                out[c.qualname] = arm
     return f, ch, out
 
 
@@ -244,7 +259,7 @@ def r4(p, rep):
         br = branches.get(c.qualname)
         # (b) every constructor field is read in its emitter branch
         if br is not None:
-            subj = ch.subject
+            subj = br.subject_name
             reads = {x.attr for st in br.body for x in ast.walk(st) if isinstance(x, ast.Attribute) and norm(x.value) == subj}
             for fld in nf.fields:
                 if fld in ORDERING_ONLY_FIELDS:
@@ -273,7 +288,7 @@ def r4(p, rep):
         for i, prm in enumerate(nf.params):
             a = args[i] if i < len(args) else next((k.value for k in rb.keywords if k.arg == prm), None)
             flds = [fl for fl in nf.fields if nf.field_param(fl) == prm]
-            used = {x.attr for x in ast.walk(a) if isinstance(x, ast.Attribute) and isinstance(x.value, ast.Name) and x.value.id == s} if a is not None else set()
+            used = nf.rebuild_sources(a) if a is not None else set()
             ok = bool(used & set(flds)) if flds else True
             if prm == "output" and not flds:
                 ok = "output" in used
@@ -283,17 +298,27 @@ def r4(p, rep):
 def r5(p, rep):
     rep.rule("C04.R5", "compute-once and side-effect emission", "T-DOM", floor=8)
     # usage counting sees every use
-    f = p.func("get_usages._recurse", "tracer.compiler.python.usage")
+    gu = p.func("get_usages", "tracer.compiler.python.usage")
+    # the walker: the (nested) function of get_usages that calls itself, whatever it is called
+    walkers = [g for g in p.funcs.values() if (g is gu or g.parent is gu) and any(isinstance(n, ast.Call) and isinstance(n.func, ast.Name) and n.func.id == g.name for n in walk_no_nested(g.node))]
+    if len(walkers) != 1:
+        raise AnalysisError(f"unrecognised idiom: get_usages has {len(walkers)} recursive walkers")
+    f = walkers[0]
     cfg = CFG(f.node)
-    incs = [n for n in walk_no_nested(f.node) if isinstance(n, ast.AugAssign) and isinstance(n.op, ast.Add) and "usagenum" in norm(n.target)]
+    # the counter: `<...>[id(v)] += 1`;  the visited set: a name S with `S.add(id(v))`
+    incs = [n for n in walk_no_nested(f.node) if isinstance(n, ast.AugAssign) and isinstance(n.op, ast.Add) and isinstance(n.target, ast.Subscript) and norm(n.target.slice).startswith("id(")]
     if not incs:
-        raise AnalysisError("unrecognised idiom: no usage counter increment in get_usages._recurse")
+        raise AnalysisError("unrecognised idiom: no usage counter increment `<counter>[id(v)] += 1` in the walker of get_usages")
+    seen_sets = {n.func.value.id for n in walk_no_nested(f.node) if isinstance(n, ast.Call) and isinstance(n.func, ast.Attribute) and n.func.attr == "add" and isinstance(n.func.value, ast.Name) and n.args and norm(n.args[0]).startswith("id(")}
     for inc in incs:
-        facts = [(norm(t), pol) for t, pol in cfg.guards(cfg.node_for(inc))]
-        visited = [(t, pol) for t, pol in facts if " in done" in t and pol is False]
+        visited = []
+        for t, pol in cfg.guards(cfg.node_for(inc)):
+            pos = common.as_positive(t, pol)
+            if isinstance(pos, ast.Compare) and isinstance(pos.ops[0], ast.NotIn) and isinstance(pos.comparators[0], ast.Name) and pos.comparators[0].id in seen_sets and norm(pos.left).startswith("id("):
+                visited.append(norm(pos))
         rep.add(
             "C04.R5",
-            f"{f.qualname}:count-every-use",
+            f"{gu.qualname}:<walker>:count-every-use",
             f"{f.module.rel}:{inc.lineno}",
             not visited,
             "the use counter is incremented on every visit" if not visited else "the use counter is only incremented on the first visit (it is guarded by the already-visited test), so every value has usage count 1: values used several times are inlined at each use, i.e. computed more than once, and a re-evaluation that lands after an in-place update reads the updated data",
